@@ -275,6 +275,32 @@ type spec struct {
 	HexAT        string            `json:"hex_at,omitempty"`
 	HexAnn       map[string]string `json:"hex_ann,omitempty"`
 	HexConfigAnn map[string]string `json:"hex_config_ann,omitempty"`
+	// history: the specs (JSON) of the calls made before this one on the same target, oldest first
+	Prev []string `json:"prev,omitempty"`
+}
+
+// chainState: a target shared by consecutive cases (a history of different calls); the store the
+// model starts from is everything put there so far.
+type chainState struct {
+	inner   storage
+	cleanup func()
+	entries []string
+	target  string
+	prev    []string
+}
+
+var chain *chainState
+
+func startChain(target string) {
+	inner, cleanup := newTarget(target)
+	chain = &chainState{inner: inner, cleanup: cleanup, target: target}
+}
+
+func endChain() {
+	if chain != nil {
+		chain.cleanup()
+		chain = nil
+	}
 }
 
 func hexMap(m map[string]string) map[string]string {
@@ -885,15 +911,23 @@ func specJSON(sp *spec) string {
 
 func packCase(sp *spec) {
 	id := run.NewID()
+	var inner storage
+	var storeEntries []string
+	if chain != nil {
+		inner, sp.Target, sp.Prev = chain.inner, chain.target, append([]string{}, chain.prev...)
+		storeEntries = append(storeEntries, chain.entries...)
+		run.Count("history_chained_call")
+	} else {
+		var cleanup func()
+		inner, cleanup = newTarget(sp.Target)
+		defer cleanup()
+	}
 	rep := map[string]string{"op": "K", "spec": specJSON(sp)}
 	fail := func(sig, format string, a ...any) {
 		run.OracleFail(id, sig, fmt.Sprintf(format, a...), rep)
 	}
-	inner, cleanup := newTarget(sp.Target)
-	defer cleanup()
 
 	// pre-existing content
-	var storeEntries []string
 	seenEntry := map[string]bool{}
 	addEntry := func(d ocispec.Descriptor, data []byte) {
 		err := inner.Push(ctx, d, bytes.NewReader(data))
@@ -931,12 +965,27 @@ func packCase(sp *spec) {
 		backed(*sp.Config)
 	}
 
-	if repo, ok := inner.(*remote.Repository); ok && allBacked(sp, false) {
+	if repo, ok := inner.(*remote.Repository); ok {
 		// everything the caller refers to is in the registry: let it validate the manifest
-		repo.Client.(*fakeRegistry).validate = true
-		run.Count("registry_validating")
+		v := allBacked(sp, false)
+		repo.Client.(*fakeRegistry).validate = v
+		if v {
+			run.Count("registry_validating")
+		}
 	}
 	rec := &recorder{inner: inner, failAt: sp.FailAt, faultErr: sp.FaultErr}
+	if chain != nil {
+		defer func() { // what this call stored is there for the next call of the history
+			for _, e := range rec.events {
+				if e.kind == "P" && e.err == nil {
+					storeEntries = append(storeEntries, fmt.Sprintf("%s:%s:%d", common.Hex(e.desc.MediaType), common.Hex(string(e.desc.Digest)), e.desc.Size))
+				}
+			}
+			prev := *sp
+			prev.Prev = nil
+			chain.entries, chain.prev = storeEntries, append(chain.prev, specJSON(&prev))
+		}()
+	}
 	var p content.Pusher = pusherOnly{rec}
 	if sp.Exists {
 		p = fullStorage{rec}
